@@ -87,6 +87,7 @@ type scenario struct {
 	RollbackTo   int    `json:"rollbackTo"`   // after the history: Rollback(to) (0 = none)
 	NoWait       bool   `json:"noWait"`       // do not wait for background work between commits
 	Big          int    `json:"big"`          // size of the one large state value per block (0 = 1500 bytes)
+	ManyTxs      int    `json:"manyTxs"`      // block 2 carries this many transactions and events instead of 2 (0 = 2)
 }
 
 func (sc scenario) big() int {
@@ -196,6 +197,14 @@ func stateOps(v uint64, big int, exists func(k []byte) bool) []kvop {
 			}
 		}
 	}
+	// a key that holds the EMPTY value (how the state machine stores set membership, e.g. committee and delegate
+	// keys: Set(key, nil)): written by every even version, deleted by every odd one
+	ek := stateKey(nKeys)
+	if v%2 == 0 {
+		ops = append(ops, kvop{Key: ek, Val: []byte{}})
+	} else if exists(ek) {
+		ops = append(ops, kvop{Key: ek, Del: true})
+	}
 	return ops
 }
 
@@ -250,9 +259,23 @@ func short(b []byte) string {
 
 // blockObjects builds the indexed objects of block height H (= version-1) given the state
 // root after the block's writes and the previous block hash.
+// manyTxs is the scenario's ManyTxs (set by setScenario before any block object of the scenario is built;
+// one scenario at a time per process).
+var manyTxs int
+
+func setScenario(sc scenario) { manyTxs = sc.ManyTxs }
+
+func txsAt(H uint64) int {
+	if H == 2 && manyTxs > 0 {
+		return manyTxs
+	}
+	return 2
+}
+
 func blockObjects(H uint64, stateRoot, lastHash []byte) (*lib.BlockResult, *lib.QuorumCertificate) {
 	var txs []*lib.TxResult
-	for i := 0; i < 2; i++ {
+	n := txsAt(H)
+	for i := 0; i < n; i++ {
 		msg, e := lib.NewAny(&fsm.MessageSend{FromAddress: signer.PublicKey().Address().Bytes(), ToAddress: addr(int(H) + i), Amount: 1000*H + uint64(i)})
 		if e != nil {
 			panic(e)
@@ -272,7 +295,10 @@ func blockObjects(H uint64, stateRoot, lastHash []byte) (*lib.BlockResult, *lib.
 		{EventType: "reward", Msg: &lib.Event_Reward{Reward: &lib.EventReward{Amount: 7 * H}}, Height: H, Reference: "begin_block", ChainId: 1, Address: addr(int(H))},
 		{EventType: "reward", Msg: &lib.Event_Reward{Reward: &lib.EventReward{Amount: 9 * H}}, Height: H, Reference: "end_block", ChainId: 2, Address: signer.PublicKey().Address().Bytes()},
 	}
-	hdr := &lib.BlockHeader{Height: H, NetworkId: 1, Time: 1_700_000_000_000_000 + H*1_000_000, NumTxs: 2, TotalTxs: 2 * H,
+	for i := 2; i < n; i++ {
+		events = append(events, &lib.Event{EventType: "reward", Msg: &lib.Event_Reward{Reward: &lib.EventReward{Amount: 11*H + uint64(i)}}, Height: H, Reference: txs[i].TxHash, ChainId: 1, Address: addr(int(H) + i)})
+	}
+	hdr := &lib.BlockHeader{Height: H, NetworkId: 1, Time: 1_700_000_000_000_000 + H*1_000_000, NumTxs: uint64(n), TotalTxs: 2 * H,
 		TotalVdfIterations: 100 * H, LastBlockHash: lastHash, StateRoot: stateRoot,
 		TransactionRoot: crypto.Hash([]byte(txs[0].TxHash + txs[1].TxHash)), ValidatorRoot: crypto.Hash([]byte("vals")), NextValidatorRoot: crypto.Hash([]byte("vals")),
 		ProposerAddress: proposer.PublicKey().Address().Bytes()}
@@ -629,6 +655,7 @@ type reference struct {
 // buildReference runs versions 1..commits+1 without interruption on a plain MemFS store
 // opened with the production options.
 func buildReference(sc scenario) (*reference, error) {
+	setScenario(sc)
 	ref := &reference{sc: sc, maxV: sc.commits() + 1}
 	ref.model, ref.ops = buildModel(ref.maxV, sc.big())
 	cfg := sc.quietConfig()
@@ -703,7 +730,7 @@ func buildReference(sc scenario) (*reference, error) {
 			}
 		}
 		for H := 1; H <= ref.maxV-1; H++ {
-			present := strings.Contains(o.Index[H-1], fmt.Sprintf("(h=%d,txs=2,ev=2)", H))
+			present := strings.Contains(o.Index[H-1], fmt.Sprintf("(h=%d,txs=%d,ev=%d)", H, txsAt(uint64(H)), txsAt(uint64(H))))
 			if present != (H+1 <= v) {
 				return nil, fmt.Errorf("reference at version %d: block %d present=%v: %s", v, H, present, o.Index[H-1])
 			}
